@@ -5053,6 +5053,11 @@ EmitDone:
 #undef ERROR_HANDLER
 
 Failed:
+  // A relocation that has been created for an instruction that was not emitted must not be processed.
+  if (re) {
+    re->_reloc_type = RelocType::kNone;
+  }
+
 #ifndef ASMJIT_NO_LOGGING
   return EmitterUtils::log_instruction_failed(this, err, inst_id, options, o0, o1, o2, op_ext);
 #else
